@@ -251,7 +251,7 @@ fn kb_days_to_ymd() {
 
 /// stand-in for the movie-header builder in the harness below (the real one is proved in units boxes_leaf / boxes_tree): a 16-byte box
 /// whose payload records how many video samples and chunk offsets it was given
-fn stub_moov(_video: &Mp4VideoTrack, video_tables: &SampleTables, _audio: Option<(&Mp4AudioTrack, &SampleTables)>,
+pub(crate) fn stub_moov(_video: &Mp4VideoTrack, video_tables: &SampleTables, _audio: Option<(&Mp4AudioTrack, &SampleTables)>,
              _video_config: &VideoConfig, _metadata: Option<&Metadata>) -> Vec<u8> {
     let mut v: Vec<u8> = Vec::new();
     v.extend_from_slice(&16u32.to_be_bytes());
@@ -295,30 +295,60 @@ fn kb_finalize_tiling() {
     core::mem::forget(w);
 }
 
-/// a sink that follows a script: per write call it reports Interrupted, accepts one byte, or accepts everything
-struct ScriptSink { got: Vec<u8>, script: [u8; 5], pos: usize }
+/// a sink that follows a script: per write call it reports Interrupted, accepts one byte, accepts everything, or FAILS (WouldBlock)
+struct ScriptSink { got: Vec<u8>, script: [u8; 4], pos: usize, failed: bool }
 impl std::io::Write for ScriptSink {
     fn write(&mut self, buf: &[u8]) -> std::io::Result<usize> {
-        let a = if self.pos < 5 { self.script[self.pos] % 3 } else { 2 };
+        let a = if self.pos < 4 { self.script[self.pos] % 4 } else { 2 };
         self.pos += 1;
         if a == 0 { return Err(std::io::Error::from(std::io::ErrorKind::Interrupted)); }
+        if a == 3 { self.failed = true; return Err(std::io::Error::from(std::io::ErrorKind::WouldBlock)); }
         if a == 1 && !buf.is_empty() { self.got.push(buf[0]); return Ok(1); }
         self.got.extend_from_slice(buf);
         Ok(buf.len())
     }
     fn flush(&mut self) -> std::io::Result<()> { Ok(()) }
 }
-/// BOUNDED (a 3-byte buffer, every schedule of up to 5 Interrupted / one-byte / full results): the one function through which muxide
-/// writes delivers the whole buffer, reports success and counts exactly the buffer length - short and interrupted writes are invisible.
+/// BOUNDED (a 3-byte buffer, every schedule of up to 4 Interrupted / one-byte / full / failing results): the one function through which
+/// muxide writes either delivers the whole buffer, reports success and counts exactly the buffer length - short and interrupted writes
+/// are invisible - or, when a write call fails, reports the error and leaves a PREFIX of the buffer in the sink (nothing is re-sent).
 #[kani::proof]
 #[kani::unwind(8)]
 fn kb_write_counted_retries() {
-    let script: [u8; 5] = kani::any();
-    let mut s = ScriptSink { got: Vec::new(), script, pos: 0 };
+    let script: [u8; 4] = kani::any();
+    let mut s = ScriptSink { got: Vec::new(), script, pos: 0, failed: false };
     let mut n: u64 = 0;
     let r = Mp4Writer::<ScriptSink>::write_counted(&mut s, &mut n, &[1u8, 2, 3]);
-    match r { Ok(()) => {}, Err(e) => { core::mem::forget(e); assert!(false); } }
-    assert!(s.got.len() == 3 && s.got[0] == 1 && s.got[1] == 2 && s.got[2] == 3);
-    assert!(n == 3);
+    let buf = [1u8, 2, 3];
+    match r {
+        Ok(()) => { assert!(!s.failed); assert!(s.got.len() == 3 && s.got[0] == 1 && s.got[1] == 2 && s.got[2] == 3); assert!(n == 3); }
+        Err(e) => {
+            core::mem::forget(e);
+            assert!(s.failed);
+            assert!(s.got.len() <= 3);
+            let mut i = 0;
+            while i < s.got.len() { assert!(s.got[i] == buf[i]); i += 1; }
+        }
+    }
     core::mem::forget(s);
+}
+
+/// BOUNDED (the real build_moov_box on empty sample tables, with and without an audio track, AAC or Opus): mvhd.next_track_ID exceeds
+/// every track ID the movie contains (2 for video only, 3 as soon as an audio trak is emitted - also when it has no samples yet).
+#[kani::proof]
+#[kani::unwind(12)]
+#[kani::stub(crate::invariant_ppt::__assert_invariant_impl, stub_inv)]
+fn kb_moov_next_track_id() {
+    let video = Mp4VideoTrack { width: 16, height: 16 };
+    let vt = SampleTables::from_samples(&[], Vec::new(), 1, None);
+    let at = SampleTables::from_samples(&[], Vec::new(), 1, None);
+    let cfg = VideoConfig::Vp9(crate::codec::vp9::Vp9Config { width: 16, height: 16, profile: 0, bit_depth: 8, color_space: 0, transfer_function: 0, matrix_coefficients: 0, level: 0, full_range_flag: 0 });
+    let with_audio: bool = kani::any();
+    let audio = Mp4AudioTrack { sample_rate: 48000, channels: 2, codec: AudioCodec::Opus };
+    let moov = if with_audio { build_moov_box(&video, &vt, Some((&audio, &at)), &cfg, None) } else { build_moov_box(&video, &vt, None, &cfg, None) };
+    // moov header (8) + mvhd (108): next_track_ID is the last 4 bytes of mvhd
+    assert!(moov.len() >= 116 && moov[12] == b'm' && moov[13] == b'v' && moov[14] == b'h' && moov[15] == b'd');
+    assert!(rd32(&moov, 8) == 108);
+    assert!(rd32(&moov, 8 + 104) == if with_audio { 3 } else { 2 });
+    core::mem::forget(moov); core::mem::forget(cfg);
 }
